@@ -22,7 +22,7 @@ Trees == {T1, T2, T3}
 Prefixes == {"", "!", "/", "!/"}
 BLit   == {"a", "b.c", "A", "d.", "-x", "\\*", ".h"}
 BWild  == {"*", "?", "*.c", "*.", ".*", "b.?", "[ab]", "[!a]", "[a-c].c", "d[.]", "-*", "[^b-z]*"}
-BStar2 == {"**/a", "**/b.c", "a/**", "a/**/b.c", "**", "A/**", "**/A/*", "b**c", "**.c", "**a", "**c"}
+BStar2 == {"**/a", "**/b.c", "a/**", "a/**/b.c", "**", "A/**", "**/A/*", "b**c", "**.c", "**a", "**c", "**/b.c/a", "**/a/a", "**/a/A", "**/b.c/b.c"}
 BSlash == {"a/a", "a/b.c", "a/*", "*/a", "*/b.c", "a/A", "A/b.c", "a/b.c/a", "a/*/b.c", "a/?", "d./a", "*/d."}
 Bodies == BLit \cup BWild \cup BStar2 \cup BSlash
 BlankBodies == {"a", "*", "a/a", "d."}
@@ -34,10 +34,10 @@ SingleLines == Compose(Prefixes, Bodies, {"", "/"}) \cup Compose(Prefixes, Blank
 
 \* pools for the multi-line families: PA mostly ignores, PB mostly re-includes, PS is written for the
 \* nested file (relative to the sub-directory), PC third lines
-PA == {"*", "/*", "a", "a/", "/a", "a/*", "a/**", "*.c", "b.c", "**/b.c", "[!a]*", ".*", "A", "*/", "/*.c", "a/*.c"}
+PA == {"*", "/*", "a", "a/", "/a", "a/*", "a/**", "*.c", "b.c", "**/b.c", "[!a]*", ".*", "A", "*/", "/*.c", "a/*.c", "**/b.c/b.c", "**/b.c/a"}
 PB == {"!a", "!a/", "!/a", "!a/a", "!a/b.c", "!b.c", "!*.c", "!*", "!*/", "!**/b.c", "!a/**/b.c", "!.h",
        "!\\*", "!-x", "!d.", "!A", "!a/A", "!a/b.c/", "!/b.c", "!a/**", "!?", "![ab]", "!A/", "!**/a", "!",
-       "*/", "b.c/", "!/b*.c", "!a/b*.c", "!**.c"}
+       "*/", "b.c/", "!/b*.c", "!a/b*.c", "!**.c", "**/a/A", "**/a/a", "!**/a/a"}
 PNegRoot == {"!b.c", "!a/b.c", "!A/"}
 PS == {"!a", "!/a", "!b.c", "!*.c", "!*", "!b.c/", "!A", "!**/b.c", "!.h", "!b.c/a", "!-x",
        "a", "/b.c", "*", "b.c/", "-x", "*.c"}
